@@ -31,9 +31,9 @@ man = dict(
     version=1,
     setup_cmd="make -C tool mpx",
     hooks=dict(guard="AMPL_MP_VERIF",
-               enable="-DAMPL_MP_VERIF (no hook is compiled into any check: the checks are static and need no instrumentation)",
+               enable="-DAMPL_MP_VERIF when compiling src/solver.cc (named signal points MP_VERIF_SIGPOINT in SignalHandler); used only by the triage program replay/c15_replay.cc - the checks are static and need no instrumentation",
                baseline_off_cmd="python3 /verif/tool/baseline.py",
-               source_commits=[], add_only=True),
+               source_commits=["d35624a"], add_only=True),
     engines=[dict(name="mpx+mpsa", path="/verif/tool/mpx.cc, /verif/mpsa",
                   serves_properties=[c["property_id"] for c in checks],
                   kind_free_text="clang-14 LibTooling fact exporter (resolved AST + CFG of the "
